@@ -649,7 +649,9 @@ def c13(ctx):
                 "BIND, DISTINCT, projection, outermost OFFSET/LIMIT as a sub-bag of the right size, ASK), three-valued expressions (= < && || ! BOUND isIRI). %d random (dataset, query) pairs: datasets of <= 6 quads over a default and two named "
                 "graphs sharing triples, literals of all value classes; queries of depth <= 3 built DIRECTLY as spargebra algebra, run on Vec/FastDataset/LightDataset; bags of rows over the in-scope variables compared by TLC; "
                 "27 unsupported constructs must answer NotImplemented. distinct = (dataset, query) pairs with a non-empty answer" % n)
-    ctx.assumptions += ["SUBSTR/STRLEN/arithmetic and quoted-triple patterns are not yet in the modelled expression fragment"]
+    ctx.rule += ("; expression fragment also: != > <= >=, + - * on integers, sameTerm, IF, COALESCE, isBlank/isLiteral/isNumeric, STR/LANG/DATATYPE, STRLEN/UCASE/LCASE/SUBSTR/CONCAT, STRSTARTS/STRENDS/CONTAINS, "
+                 "the numeric tower of SparqlNum.tla (exact decimal expansions); every function on every tuple of constants of the universe; integer constants also written (c + B) - B with B beyond 64 bits")
+    ctx.assumptions += ["quoted-triple patterns are not in the modelled fragment", "(c + B) - B = c for xsd:integer (exact arithmetic, XPath op:numeric-add/subtract): the model is given c, the engine the long form"]
 
 
 def c14(ctx):
@@ -686,7 +688,9 @@ def c14(ctx):
     mc.join()
     ctx.rule = ("%d multisets: 2-4 rows (every permutation of the input rows is run) or 30-90 rows (4 random permutations), values from a 39-value universe (every numeric XSD type incl. derived integer types with facets, NaN, +-INF, -0.0, "
                 "a 21-digit decimal, ill-typed literals, unknown datatype, plain/tagged strings, booleans, dateTimes, IRIs, blank nodes, unbound), one or two ASC/DESC keys. TLC checks permutation, no inversion of a pair that SPARQL's '<' "
-                "or the kind rank orders (Xsd.tla exact decimal arithmetic), later keys breaking ties of same terms, and that ONE total preorder explains all outputs of a batch. evaluations = ORDER BY runs" % n)
+                "or the kind rank orders (Xsd.tla exact decimal arithmetic), later keys breaking ties of same terms, and that ONE total preorder explains all outputs of a batch. "
+                "A further %d multisets of 3-4 rows mix stored values with integers computed by BIND(?x - B AS ?v) from stored x = v + B (B beyond 64 bits), a third of them sorted on the key expression ?v + 0. evaluations = ORDER BY runs" % (n, n // 2))
+    ctx.assumptions += ["(v + B) - B = v for xsd:integer: the judge is given v as the key of a computed row"]
 
 
 def rt_validate(ctx, tr, what, chunk_bytes=120_000_000):
